@@ -249,6 +249,7 @@ theorem build_bytes_reload (fmt : R → List UInt8) (env : Env R) (hd : env.decr
     (hsmall : b'.bytes.length ≤ fileMax) (hpf : 3 * b'.bytes.length ≤ pfuel) (rfuel : Nat) :
     buildB fmt pages info = .ok b'.bytes ∧
     ∃ t T, openB env pfuel dec 2 b'.bytes = .ok (0, t, T) ∧ t.length = i.size + 1 ∧
+      dictGet T kRoot = some (.ref (3 * pages.length + 2) 0) ∧
       (∀ id v g, chLookup (prep (prepared fmt pages info).doc).st2.changes id = some (v, g) →
         ∃ o, resolveB env pfuel dec (rfuel + 2) b'.bytes 0 t id = .ok o ∧ Denotes b'.bytes o v) := by
   have hmono : (prepared fmt pages info).bytes.length ≤ b'.bytes.length := by
@@ -262,6 +263,42 @@ theorem build_bytes_reload (fmt : R → List UInt8) (env : Env R) (hd : env.decr
   refine ⟨by simp [buildB, hs], ?_⟩
   exact C09Bytes.reload_sees_pending_bytes fmt env hd pfuel dec hdec _ _ [] (baseOK_empty info _)
     (baseVals_empty fmt env.parseReal info _ hinfo hn) h1 b' i hs hsmall hpf 2 hsecs rfuel
+
+/-- **C10 at byte level, "reload with the same pages".** In the file `PdfBuilder::build` returns, read through the
+    byte-level open path and resolver: `/Root` of the trailer (object `3n + 2`) is the catalog, whose `/Pages` (object
+    `n + 1`) is the page tree with `/Kids [1 0 R … n 0 R]` and `/Count n`; leaf `k + 1` is page `k` — its dictionary as
+    built, `/Parent` the tree, `/Resources` object `n + 2 + 2k` = the resources given, `/Contents` object `n + 3 + 2k` =
+    a stream whose data are exactly the content bytes given. Same number of pages, same order, same payloads. -/
+theorem build_bytes_pages (fmt : R → List UInt8) (env : Env R) (hd : env.decrypt = none) (pfuel : Nat)
+    (dec : Dict R → List UInt8 → Out (List UInt8)) (hdec : NoFilter dec) (pages : List (PageB R)) (info : Option (Prim R))
+    (hn : pages.length ≤ 1000000) (hp : ∀ p ∈ pages, PageOK fmt env.parseReal p)
+    (hinfo : ∀ v, info = some v → OKVal fmt env.parseReal v)
+    (b' : BDoc R) (i : SaveInfo) (hs : saveB fmt (prepared fmt pages info) = (b', .ok i))
+    (hsmall : b'.bytes.length ≤ fileMax) (hpf : 3 * b'.bytes.length ≤ pfuel) (rfuel : Nat) :
+    ∃ t T, openB env pfuel dec 2 b'.bytes = .ok (0, t, T) ∧
+      dictGet T kRoot = some (.ref (3 * pages.length + 2) 0) ∧
+      (∃ o, resolveB env pfuel dec (rfuel + 2) b'.bytes 0 t (3 * pages.length + 2) = .ok o ∧
+        Denotes b'.bytes o (catalogVal (pages.length + 1))) ∧
+      (∃ o, resolveB env pfuel dec (rfuel + 2) b'.bytes 0 t (pages.length + 1) = .ok o ∧
+        Denotes b'.bytes o (treeVal (List.range' 1 pages.length))) ∧
+      ∀ k p, pages[k]? = some p →
+        (∃ o, resolveB env pfuel dec (rfuel + 2) b'.bytes 0 t (k + 1) = .ok o ∧
+          Denotes b'.bytes o (pageVal (pages.length + 1) (pages.length + 2 + 2 * k) (pages.length + 3 + 2 * k) p)) ∧
+        (∃ o, resolveB env pfuel dec (rfuel + 2) b'.bytes 0 t (pages.length + 2 + 2 * k) = .ok o ∧ Denotes b'.bytes o p.res) ∧
+        (∃ o, resolveB env pfuel dec (rfuel + 2) b'.bytes 0 t (pages.length + 3 + 2 * k) = .ok o ∧
+          Denotes b'.bytes o (contentVal p.content)) := by
+  have hmono : (prepared fmt pages info).bytes.length ≤ b'.bytes.length := by
+    rcases (saveB_cases fmt _ _ _ hs).2.2 with ⟨_, _, hbts⟩ | ⟨hno, _⟩
+    · rw [hbts]; simp
+    · exact absurd rfl (hno i)
+  have hb0 := baseOK_empty info pages.length
+  have h1 := hinv_prepared fmt env hd pfuel dec hdec pages info hn hp hinfo (by omega) (by omega)
+  have pf := prep_facts _ (prepared fmt pages info).doc [] hb0 h1.inv
+  obtain ⟨c1, c2, c3⟩ := prepared_changes fmt pages info
+  obtain ⟨_, t, T, hopen, _, hroot, hres⟩ := build_bytes_reload fmt env hd pfuel dec hdec pages info hn hp hinfo b' i hs hsmall hpf rfuel
+  refine ⟨t, T, hopen, hroot, hres _ _ _ (pf.ch_sup _ _ c1), hres _ _ _ (pf.ch_sup _ _ c2), fun k p hk => ?_⟩
+  obtain ⟨d1, d2, d3⟩ := c3 k p hk
+  exact ⟨hres _ _ _ (pf.ch_sup _ _ d1), hres _ _ _ (pf.ch_sup _ _ d2), hres _ _ _ (pf.ch_sup _ _ d3)⟩
 
 /-- **C10 at byte level, structural validity** of the file `PdfBuilder::build` returns, as statements about its bytes:
     * it is the header line followed by one revision;
